@@ -11,7 +11,11 @@ def plan(tier):
     return {
         "mc": mc,
         "families": [{"fam": "hmm", "trace": "HmmTrace"}, {"fam": "hmmx", "trace": "HmmExpTrace"}],
-        "required_obligations": ["mc_family", "t1", "end_dist", "end_zero", "substochastic", "den10", "impossible_obs",
+        "required_obligations": ["mc_family", "layout_column_major",
+                                 # every constructor of both model types, with / without end distribution
+                                 "ctor_plain_float", "ctor_plain_prob", "ctor_plain_log",
+                                 "ctor_optend_none_float", "ctor_optend_none_prob", "ctor_optend_none_log",
+                                 "ctor_optend_some_float", "ctor_optend_some_prob", "ctor_optend_some_log", "t1", "end_dist", "end_zero", "substochastic", "den10", "impossible_obs",
                                  "unreachable_state", "ties", "long_t", "single_state",
                                  # power-of-two class (hmmx): optimum on both sides of -500 nats
                                  "exp_optimum_above_500", "exp_optimum_below_500", "exp_straddle_500",
@@ -19,7 +23,8 @@ def plan(tier):
                                  "logsum_spread_in_fastexp_window", "logsum_spread_beyond_window",
                                  "more_than_256_states", "logsum_spread_709_78_to_710_nats",
                                  "decoupled_takeover_beyond_500_nats", "decoupled_takeover_below_500_nats"],
-        "rule": "spec->impl: the S=2,M=2,Den=2 model family of the MC run x all observation sequences T<=3 replayed "
+        "rule": "configuration dimensions: three constructors x {plain, opt_end without, opt_end with end} and the memory "
+                "layout of the matrices handed to them (row major, column major, strided copy: same values); spec->impl: the S=2,M=2,Den=2 model family of the MC run x all observation sequences T<=3 replayed "
                 "into the real code (quick: 1/8 of it); impl->spec: one run = one model object (plain / opt_end without / opt_end with end distribution; three "
                 "constructors) used for 2-5 observation sequences, each decoded by viterbi, forward and backward",
         "bounds": {"mc": "S=2, M=2, Den=2, T<=3, all sub-stochastic transition rows (quick: reduced emission/"
